@@ -299,6 +299,6 @@ SUBS = [
 
 MANIFEST = {
     "technique": "exhaustive enumeration of small tree shapes + Hypothesis random large trees + the shipped FaMa/Betty corpus; oracle = the definitions computed directly on the spec / on an independent reading of the XML",
-    "level_text": "Each of the six operations is compared with its definition on every small shape (exhaustive to 5/6 features), on random trees to 60/200 features, and on the corpus (<=200-feature files quick, all 1299 files thorough), with every feature as ancestors argument.",
+    "level_text": "Each of the six operations is compared with its definition on every small shape (exhaustive to 5/6 features), on random trees to 60/200 features, and on the corpus (<=200-feature files quick, all 1299 files thorough), with every feature as ancestors argument. Also: typed models with feature cardinalities/attributes, in-place edit histories (1-3 structural edits on one object, analysed after every step), caterpillar trees at rounding boundaries, chains of 300-800 edges. A sample of every sub-check additionally runs in a `python -OO` child with the root logger at DEBUG.",
     "level_note": "Trusted: reference() in vf/props/c16.py, vf/fama.py (independent FaMa reading), vf/shapes.py.",
 }
